@@ -124,6 +124,8 @@ pub struct VecObs {
     pub eq_ab: bool,
     pub cmp_ab: std::cmp::Ordering,
     pub partial_cmp_ab: Option<std::cmp::Ordering>,
+    /// the comparison operators themselves: a != b, a < b, a <= b, a > b, a >= b
+    pub ops_ab: [bool; 5],
     pub b: Vec<u64>,
 }
 
